@@ -77,6 +77,20 @@ Theorem C06_conc_serializable : forall s0 progs sched, no_gc_progs progs ->
 Proof. exact conc_serializable. Qed.
 Print Assumptions C06_conc_serializable.
 
+(* (thread, ev_rem) names a request; no request is logged twice *)
+Theorem C06_lin_log_nodup : forall s0 progs sched, no_gc_progs progs ->
+  NoDup (map (fun e => (ev_tid e, ev_rem e)) (lin_log (init_cstate s0 progs) sched)).
+Proof. exact lin_log_nodup. Qed.
+Print Assumptions C06_lin_log_nodup.
+
+(* "simple" requests: an entry is inexact only for a read that had handed the lock over in the
+   middle of its scan (it was parked at a non-final r.send); every request that runs in one
+   section — all writes, admin requests, reads without hand-over — is exact *)
+Theorem C06_inexact_only_after_handover : forall st i e, step_event st i = Some e -> ev_exact e = false ->
+  exists rows rngs count coins pending acc, prog_at st i = PScan rows rngs count coins pending acc false.
+Proof. exact inexact_only_after_handover. Qed.
+Print Assumptions C06_inexact_only_after_handover.
+
 (* writes and admin requests only: the log IS the list of calls in the order of their ODone steps *)
 Theorem C06_conc_serializable_writes : forall s0 progs sched,
   no_gc_progs progs -> no_req_progs is_read progs ->
@@ -85,6 +99,18 @@ Theorem C06_conc_serializable_writes : forall s0 progs sched,
   run s0 (map ev_call D) = (cs_server (fst (crun st0 sched)), map ev_resp D).
 Proof. exact conc_serializable_writes. Qed.
 Print Assumptions C06_conc_serializable_writes.
+
+(* the same for every schedule along which no read is ever parked inside its scan (reads that
+   answer in the step taking their first lock, e.g. with nothing to send, are allowed).  For reads
+   that park before their last send the ODone order is NOT a serialisation: see
+   C06_read_linearises_at_its_section below *)
+Theorem C06_conc_serializable_odone : forall s0 progs sched, no_gc_progs progs ->
+  let st0 := init_cstate s0 progs in
+  scan_free st0 sched ->
+  let D := done_log st0 sched in
+  run s0 (map ev_call D) = (cs_server (fst (crun st0 sched)), map ev_resp D).
+Proof. exact conc_serializable_odone. Qed.
+Print Assumptions C06_conc_serializable_odone.
 
 (* commit order = lock-acquisition order *)
 Theorem C06_commit_order_is_lock_order : forall s0 progs sched,
@@ -260,3 +286,17 @@ Example C06_failure_example :
   let c := mkCall (BMutateRow C06_tbl [114%N] [SetCell [102%N] [113%N] 2000 [9%N]; SetCell [120%N] [113%N] 2000 [9%N]]) 0 [] in
   snd (step C06_s1 c) = fail cUnknown /\ fst (step C06_s1 c) = C06_s1.
 Proof. vm_compute. split; reflexivity. Qed.
+
+(* a read with nothing to send answers in the step that takes its lock: the schedule is scan-free
+   and the ODone order serialises it together with the writers *)
+Definition C06_r_empty : call := mkCall (BReadRows C06_tbl [[122%N]] [] None 0) 0 [].
+Example C06_scan_free_example :
+  let st0 := init_cstate C06_s0 [[C06_r_empty]; [C06_w 2]] in
+  let sched := [0; 1; 0; 1; 1]%nat in
+  scan_free st0 sched
+  /\ map ev_call (done_log st0 sched) = [C06_r_empty; C06_w 2]
+  /\ map ev_resp (done_log st0 sched) = [ok (YRows []); ok YNone].
+Proof.
+  split; [|split; vm_compute; reflexivity].
+  cbn [scan_free]. repeat split; try (intros [|[|[|i]]]; vm_compute; try reflexivity; destruct i; reflexivity).
+Qed.
